@@ -384,15 +384,25 @@ class Isolation:
         self.size = size
         self.buf = []
 
-    def remember(self, obj, raw: bytes, label: str):
-        self.buf.append((obj, bytes(raw), label))
+    def remember(self, obj, raw: bytes, label: str, view=None):
+        """view: optional zero-argument callable reading the object's public parameters (compared again later)."""
+        self.buf.append((obj, bytes(raw), label, view, None if view is None else repr(view())))
         if len(self.buf) > self.size:
             self.buf.pop(0)
 
     def recheck(self, ctx, monitor, case, rng=None):
         """Re-pack every remembered object and compare with the octets it was decoded from."""
-        for obj, raw, label in self.buf[:-1]:
+        for obj, raw, label, view, seen in self.buf[:-1]:
             ctx.ev(monitor)
+            if view is not None:
+                try:
+                    now = repr(view())
+                except Exception as e:  # noqa: BLE001
+                    now = "raised " + repr(e)
+                if now != seen:
+                    ctx.fail(monitor, "earlier_decoded_object_changed_by_a_later_decode", label + "/accessors", case, decoded_from=raw[:60], read_then=seen[:200], read_now=now[:200])
+                    self.buf = self.buf[-1:]
+                    return False
             try:
                 again = bytes(obj.pack())
             except Exception as e:  # noqa: BLE001
